@@ -68,8 +68,11 @@ def build_file_route(clsname, bits, route, salt, tmp):
         route = 'file_length_limited'  # an empty file cannot be memory-mapped (OS limitation, outside the property)
     if route in ('file_name_full', 'file_handle_full', 'pathlib_name') and n % 8:
         route = 'file_length_limited'
+    # every seventh salt puts the window a whole number of mmap pages (plus the usual small offset) into the file
+    import mmap
+    page = (8 * mmap.ALLOCATIONGRANULARITY * (1 + salt % 2)) if salt % 7 == 3 else 0
     if route == 'file_offset_nolen':
-        off = (-n) % 8 + 8 * (salt % 3)
+        off = (-n) % 8 + 8 * (salt % 3) + page
         p = tmp.new(to_bytes('1' * off + bits))
         return c(filename=p, offset=off) if off else c(filename=p)
     if route == 'file_name_full':
@@ -93,6 +96,8 @@ def build_file_route(clsname, bits, route, salt, tmp):
         return c(filename=p, length=n)
     if route in ('file_offset', 'file_offset_aligned', 'file_handle_offset'):
         off = 1 + salt % 23 if route != 'file_offset_aligned' else 8 * (1 + salt % 4)
+        if page:
+            off = page + (off if salt % 2 else 0)     # exactly on a page boundary, or a little past it
         p = tmp.new(to_bytes(_pad('01' * off + bits + junk_after)[off:] if False else _pad(('01' * off)[:off] + bits + junk_after)))
         if route == 'file_handle_offset':
             with open(p, 'rb') as fh:
